@@ -17,6 +17,7 @@ from __future__ import annotations
 import asyncio
 import gc
 import io
+import os
 import logging
 import re
 
@@ -312,7 +313,8 @@ def generate(plan) -> None:
         k["config_schema"] = gen_schema(r, k["max_zones"])
         k["eavesdrop"] = r.random() < 0.3
     # non-interference twin: a second gateway hears the same history minus the spliced-in system (eavesdropping off only)
-    twin_wanted = bool(sc == "views" and not k["eavesdrop"] and not ff and not k["via_file"] and r.random() < 0.8)
+    twin_wanted = bool(sc == "views" and (not k["eavesdrop"] or os.environ.get("SIMRF_TWIN_EAVES")) and not ff and not k["via_file"]
+                       and r.random() < 0.8)
     k["p_neighbour"] = r.choice([0.0, 0.3, 1.0]) if twin_wanted else 0.0
     ops = build_history(r, k)
     n = len(ops)
@@ -640,7 +642,7 @@ async def run(ctx) -> None:
         if foreign:
             ser_t = hub.add_port("/dev/simT", GID)
             hub.cast_between_ports = False
-            twin = Gateway("/dev/simT", config={"disable_discovery": True, "enforce_known_list": False, "enable_eavesdrop": False,
+            twin = Gateway("/dev/simT", config={"disable_discovery": True, "enforce_known_list": False, "enable_eavesdrop": bool(k("eavesdrop")),
                                                "max_zones": k("max_zones", 12)})
             await twin.start()
             ctx.probe("twin_runs")
